@@ -1,4 +1,5 @@
 import Casket.Proofs.VHost
+import Casket.Proofs.VHostStack
 import Casket.Generated.VHost
 /-
 C01 — Virtual-host routing picks the most specific site, or none.
@@ -11,8 +12,10 @@ correspondence stream `c01.route`.  `specRoute` / `chosenKey` are the property w
 without any trie (Spec/VHost.lean); `verdict` is the judge the driver applies to the
 implementation's answers.
 
-Domain (`inDomain`): ASCII host spellings of the shapes name, name:port, [v6], [v6]:port,
-bare v6; origin-form request paths (leading `/`).  Outside it the model is still compared
+Domain of the theorems (`inDomain`): host spellings of the shapes name, name:port, [v6], [v6]:port,
+bare v6; origin-form request paths (leading `/`).  The judge (`judged`) additionally restricts to
+ASCII hosts (the model's lower-casing is ASCII; Go's is Unicode) and excludes ACME HTTP-challenge
+requests (intercepted before routing; out of scope).  Outside it the model is still compared
 with the code, but the property is not judged.
 -/
 namespace Casket.Props.C01
@@ -126,7 +129,7 @@ theorem C01_order_independent {sites sites' : List Site} (r : Req) (hp : sites.P
     (hn : sites.all (fun s => !s.fallback) = true) : chosenKey sites r = chosenKey sites' r :=
   chosenKey_perm r hp (fallbacks_perm_of_none hp hn)
 
-/-- What `_partial` excludes is real: two designated fallback sites with different hosts are
+/-- The fallback-order clause is observable: two designated fallback sites with different hosts are
 tried in declaration order, so swapping them changes who serves an unmatched host.
 (`a`/`b` fallback sites, request host `z`.) -/
 theorem C01_order_fails_witness :
@@ -158,22 +161,101 @@ theorem C01_case_port_insensitive_model (sites : List Site) (n n' port path : By
   rw [C01_refines_spec _ _ hd, C01_refines_spec _ _ hd']
   exact (C01_case_port_insensitive sites n n' port path pm hn hb hn' hb' hport hcase).1
 
-/-- The judged predicate: whenever reversing the declaration order leaves the fallback list
-unchanged (in particular: at most one designated fallback host, or none), the model's answer
-gets the verdict "ok" for every site list and request.  `_partial`: the excluded class is
-exactly the one of `C01_order_fails_witness`. -/
-theorem C01_model_verdict_ok_partial (sites : List Site) (r : Req)
-    (hfb : fallbacks sites = fallbacks sites.reverse) :
+/-- Declaration order, as the specification states it: given the order in which the designated
+fallback hosts are tried, the choice depends on the SET of site addresses only — any permutation
+of the sites chooses the same address for every request.  (The fallback order itself is the clause
+"among designated fallback sites the first declared wins"; `C01_order_fails_witness` shows it is
+observable, so it has to be a clause.) -/
+theorem C01_order_independent_given_fallback_order {sites sites' : List Site} (fbs : List Bytes) (r : Req)
+    (hp : sites.Perm sites') : chosenKeyWith fbs sites r = chosenKeyWith fbs sites' r :=
+  chosenKeyWith_perm fbs r hp
+
+/-- The judged predicate, total: for every site list (any fallback flags, any order) and every
+request the model's answer gets the verdict "ok". -/
+theorem C01_model_verdict_ok (sites : List Site) (r : Req) :
     verdict sites r (route sites r) = "ok" := by
   unfold verdict
-  by_cases hd : inDomain sites r = true
-  · have hord : chosenKey sites r = chosenKey sites.reverse r :=
-      chosenKey_perm r (List.reverse_perm sites).symm hfb
-    simp only [hd, Bool.not_true, Bool.false_eq_true, if_false, C01_refines_spec sites r hd]
+  by_cases hj : judged sites r = true
+  · have hd : inDomain sites r = true := by
+      unfold judged at hj
+      simp only [Bool.and_eq_true] at hj
+      exact hj.1.1.1
+    simp only [hj, Bool.not_true, Bool.false_eq_true, if_false, C01_refines_spec sites r hd]
     cases specRoute sites r with
-    | site i p => simp [hord]
-    | notFound st => simp [hord]
-  · simp [hd]
+    | site i p => simp
+    | notFound st => simp
+  · simp [hj]
+
+/-! ### Through the real loader (stream `c01.stack`; loader model = `Casket.AutoHTTPS.inspect` of C15) -/
+
+/-- `Address.VHost()` (the address text after the first `://`), which `NewServer` inserts into the
+trie, is exactly the key the C01 model and specification split into host pattern and path. -/
+theorem C01_stack_vhost_is_routed_key (a : Casket.AutoHTTPS.Address) :
+    Casket.VHostStack.toNats a.vhost = vhostOf (Casket.VHostStack.siteOfAddr a).key := by
+  unfold Casket.AutoHTTPS.Address.vhost vhostOf Casket.VHostStack.siteOfAddr
+  exact Casket.VHostStack.vhost_eq a.original
+
+/-- Two site addresses with the same normalised key (`standardizeAddress` → `Normalize` → `Key`)
+anywhere in a Casketfile make `InspectServerBlocks` fail: no server is built. -/
+theorem C01_stack_duplicate_keys_rejected (addrs : List Casket.AutoHTTPS.Bytes) (port : Casket.AutoHTTPS.Bytes)
+    (r : Req) (h : Casket.VHostStackSpec.hasDuplicateKey addrs = true) :
+    ∃ e, Casket.VHostStack.stackRoute addrs port r = .loadError e := by
+  obtain ⟨e, he⟩ := Casket.VHostStack.inspect_dup addrs h
+  exact ⟨e, by simp [Casket.VHostStack.stackRoute, he]⟩
+
+/-- The full-stack judge: for every Casketfile (list of site addresses), listener port and request
+the model's answer gets the verdict "ok", provided the sites the loader accepts for that listener
+have pairwise different routing keys.  `_partial`: the hypothesis fails for addresses that differ
+only in an explicit scheme on one explicit port (known finding C01-scheme-only-duplicate, see the
+witness below); `host` vs `host/` used to fail it too and is now rejected by the loader. -/
+theorem C01_stack_model_verdict_ok_partial (addrs : List Casket.AutoHTTPS.Bytes) (port : Casket.AutoHTTPS.Bytes) (r : Req)
+    (hdistinct : ∀ as, Casket.AutoHTTPS.inspect addrs = .ok as →
+      Casket.VHostStackSpec.hasDuplicateRouteKey
+        (entries ((Casket.VHostStack.groupOf as port 0).map (fun p => Casket.VHostStack.siteOfAddr p.1))) = false) :
+    Casket.VHostStackSpec.verdict addrs port r (Casket.VHostStack.stackRoute addrs port r) = "ok" := by
+  unfold Casket.VHostStackSpec.verdict
+  by_cases hdom : addrs.all Casket.AutoHTTPS.inAddrDomain = true
+  · simp only [hdom, Bool.not_true, Bool.false_eq_true, if_false]
+    by_cases hdup : Casket.VHostStackSpec.hasDuplicateKey addrs = true
+    · obtain ⟨e, he⟩ := C01_stack_duplicate_keys_rejected addrs port r hdup
+      simp [hdup, he]
+    · simp only [hdup, if_false]
+      unfold Casket.VHostStack.stackRoute
+      cases hi : Casket.AutoHTTPS.inspect addrs with
+      | error e => rfl
+      | ok as =>
+        simp only []
+        cases hg : Casket.VHostStack.groupOf as port 0 with
+        | nil => rfl
+        | cons p0 grest =>
+          simp only []
+          rw [← hg]
+          have hd := hdistinct as hi
+          have hv := C01_model_verdict_ok
+            ((Casket.VHostStack.groupOf as port 0).map (fun p => Casket.VHostStack.siteOfAddr p.1)) r
+          cases hr : route ((Casket.VHostStack.groupOf as port 0).map (fun p => Casket.VHostStack.siteOfAddr p.1)) r with
+          | notFound st =>
+            simp only [hd, Bool.false_eq_true, if_false]
+            rw [hr] at hv; exact hv
+          | site j pfx =>
+            simp only []
+            have hj : j < (Casket.VHostStack.groupOf as port 0).length := by
+              have := Casket.VHostStack.route_index_lt hr
+              simpa using this
+            have hgj : (Casket.VHostStack.groupOf as port 0)[j]? = some (Casket.VHostStack.groupOf as port 0)[j] :=
+              List.getElem?_eq_getElem hj
+            rw [hgj]
+            simp only [hd, Bool.false_eq_true, if_false, Casket.VHostStack.groupOf_indexIn hgj]
+            rw [hr] at hv; exact hv
+  · simp [hdom]
+
+/-- What `_partial` excludes is real: `http://a.com:8080/foo` and `https://a.com:8080/foo` pass the
+loader, share the listener on 8080 and the routing key (`a.com`, `/foo`); the later one serves. -/
+theorem C01_stack_duplicate_route_key_witness :
+    let addrs : List Casket.AutoHTTPS.Bytes := [b!"http://a.com:8080/foo", b!"https://a.com:8080/foo"]
+    Casket.VHostStack.stackRoute addrs b!"8080" ⟨[97, 46, 99, 111, 109], [47, 102, 111, 111], 1⟩ = .site 1 [47, 102, 111, 111] ∧
+    Casket.VHostStackSpec.verdict addrs b!"8080" ⟨[97, 46, 99, 111, 109], [47, 102, 111, 111], 1⟩ (.site 1 [47, 102, 111, 111]) ≠ "ok" := by
+  decide
 
 /-- The catch-all hosts of the model are the ones in the source
 (regenerated from `newVHostTrie` on every run). -/
@@ -199,7 +281,5 @@ example : route [⟨[97, 46, 99, 111, 109, 47, 102], false, []⟩, ⟨[], false,
 example : route [⟨[91, 58, 58, 93, 58, 56, 48, 56, 48], false, []⟩] ⟨[122], [47], 1⟩ = .site 0 [47] := by decide
 example : route [⟨[91, 58, 58, 49, 93], false, []⟩] ⟨[91, 58, 58, 49, 93, 58, 50, 48, 49, 53], [47], 1⟩ = .site 0 [47] := by decide
 
-/-- the hypothesis of `C01_model_verdict_ok_partial` holds for a list with one fallback site -/
-example : fallbacks [⟨[97], true, [97]⟩, ⟨[98], false, [98]⟩] = fallbacks [⟨[97], true, [97]⟩, ⟨[98], false, [98]⟩].reverse := by decide
 
 end Casket.Props.C01
